@@ -30,15 +30,28 @@ Fixpoint dset (d : gdict) (k v : Z) : gdict :=
 
 Definition dget0 (d : gdict) (k : Z) : Z := match dget d k with Some v => v | None => 0 end.
 
-(** [dict(aligned.map.get_gap_coordinates())] of a gapped row *)
-Fixpoint gaps_of_row_aux (row : list Z) (p : Z) (g : gdict) : gdict :=
+(** [dict(aligned.map.get_gap_coordinates())] of a gapped row: the number of gap
+    characters in front of each residue (last entry: trailing gaps), as the
+    sparse dict {residue index: run length} of the non-empty runs.
+    (The rows reach the code as IndelMaps; this is how a gapped string is read
+    as one, not a transcription of source lines.) *)
+Fixpoint counts (row : list Z) : list Z :=
   match row with
-  | [] => g
-  | c :: row' =>
-      if c =? GAP then gaps_of_row_aux row' p (dset g p (dget0 g p + 1))
-      else gaps_of_row_aux row' (p + 1) g
+  | [] => [0]
+  | x :: row' =>
+      match counts row' with
+      | c :: cs => if x =? GAP then (c + 1) :: cs else 0 :: c :: cs
+      | [] => [0]
+      end
   end.
-Definition gaps_of_row (row : list Z) : gdict := gaps_of_row_aux row 0 [].
+
+Fixpoint sparse (p : Z) (l : list Z) : gdict :=
+  match l with
+  | [] => []
+  | c :: l' => if 0 <? c then (p, c) :: sparse (p + 1) l' else sparse (p + 1) l'
+  end.
+
+Definition gaps_of_row (row : list Z) : gdict := sparse 0 (counts row).
 
 Definition degap_row (row : list Z) : list Z := filter (fun c => negb (c =? GAP)) row.
 
